@@ -19,40 +19,51 @@ use crate::transport::types::Octet;
 use alloc::vec::Vec;
 
 const MAXV: usize = 8; // longest value written by the bounded harnesses
-const CAP: usize = 12; // observation window of `Raw`
+const CAP: usize = 9; // observation window of `Raw`: one more than the longest padded value
 
 /// All octets of one parameter value (at most CAP), as handed to a decoder by seek_to_pid.
+/// Written without a loop so that the harness unwinding bound only has to cover the decoder's own
+/// parameter loop (every extra unwinding of that loop costs ~40 k symbolic-execution steps).
 struct Raw {
     len: usize,
     bytes: [u8; CAP],
-    more: bool,
+}
+fn take(de: &mut CdrDeserializer<'_>, r: &mut Raw, i: usize) {
+    if r.len == i {
+        if let Ok(b) = Octet::cdr_deserialize(de) {
+            r.bytes[i] = b;
+            r.len = i + 1;
+        }
+    }
 }
 impl CdrDeserialize for Raw {
     fn cdr_deserialize<'a>(de: &mut CdrDeserializer<'a>) -> CdrResult<Self> {
-        let mut r = Raw { len: 0, bytes: [0; CAP], more: false };
-        let mut i = 0;
-        let mut open = true;
-        while i < CAP {
-            if open {
-                match Octet::cdr_deserialize(de) {
-                    Ok(b) => {
-                        r.bytes[i] = b;
-                        r.len += 1;
-                    }
-                    Err(_) => open = false,
-                }
-            }
-            i += 1;
-        }
-        if open {
-            r.more = Octet::cdr_deserialize(de).is_ok();
-        }
+        let mut r = Raw { len: 0, bytes: [0; CAP] };
+        take(de, &mut r, 0);
+        take(de, &mut r, 1);
+        take(de, &mut r, 2);
+        take(de, &mut r, 3);
+        take(de, &mut r, 4);
+        take(de, &mut r, 5);
+        take(de, &mut r, 6);
+        take(de, &mut r, 7);
+        take(de, &mut r, 8);
         Ok(r)
     }
 }
 const ABSENT: usize = 99;
 fn absent() -> Raw {
-    Raw { len: ABSENT, bytes: [0; CAP], more: false }
+    Raw { len: ABSENT, bytes: [0; CAP] }
+}
+/// byte j of a written value / its padding, compared without a loop
+fn byte_ok(got: u8, p: &Param, j: usize) -> bool {
+    if j < p.len {
+        got == p.val[j]
+    } else if j < pad4(p.len) {
+        got == 0
+    } else {
+        true
+    }
 }
 fn pad4(n: usize) -> usize {
     (n + 3) / 4 * 4
@@ -66,33 +77,20 @@ struct Param {
     len: usize,
     val: [u8; MAXV],
 }
-fn any_param() -> Param {
-    let p = Param { pid: kani::any(), len: kani::any(), val: kani::any() };
-    kani::assume(p.len <= MAXV);
+/// A parameter with symbolic id and bytes and the given CONCRETE value length.  (Symbolic lengths make
+/// the vector length symbolic, CBMC then keeps every grow/realloc path of the later writes: 1.4 M
+/// steps and > 10 GB for two parameters, measured.)
+fn param_of_len(len: usize) -> Param {
+    let p = Param { pid: kani::any(), len, val: kani::any() };
     kani::assume(p.pid != PID_SENTINEL); // a parameter with id 1 IS the sentinel
     p
 }
 
-// @check props=C13 tier=quick
-// @desc framing round trip: a list of 0..=3 parameters with ANY parameter ids (standard, unknown, vendor-specific >= 0x8000) and raw values of 0..=8 bytes written by the real ParameterListSerializer is exactly {header 00 03 00 00, per parameter (id LE, length LE = value length rounded up to 4, value, zero padding), sentinel 01 00 00 00}; looking up ANY id q with the real ParameterList returns exactly the bytes (plus zero padding) of the FIRST parameter with that id - parameters with other ids before and after it are skipped - and the caller's default if no parameter has that id; get_non_optional_parameter reports PidNotFound(q) in that case
-// @bounds 0..=3 parameters; ids any i16 except 1 (the sentinel); value lengths 0..=8, value bytes symbolic; looked-up id any i16 except 1 and except 0x0300 (the encapsulation header read as a parameter id: never written or looked up by dust-dds; the big-endian counterpart is KF-C13-2). unwind 14 (12-octet observation window + 2)
-// @assume buffer created with capacity 64 (no reallocation while writing; the real callers pass Vec::new()); q != 0x0300; value lengths <= 8 (the negation of trigger KF-C13-1 is only covered up to this bound)
-// @enc dcps::data_representation_builtin_endpoints::rtps_data_representation_serialization::ParameterListSerializer::write_header
-// @enc dcps::data_representation_builtin_endpoints::rtps_data_representation_serialization::ParameterListSerializer::write_cdr_parameter
-// @enc dcps::data_representation_builtin_endpoints::rtps_data_representation_serialization::ParameterListSerializer::write_sentinel
-// @enc dcps::data_representation_builtin_endpoints::rtps_data_representation::ParameterList::get_optional_parameter
-// @enc dcps::data_representation_builtin_endpoints::rtps_data_representation::ParameterList::get_non_optional_parameter
-// @enc dcps::data_representation_builtin_endpoints::rtps_data_representation::PidIterator::next
-#[kani::proof]
-#[kani::unwind(14)]
-fn c13_framing_roundtrip__rest() {
-    roundtrip(2);
-}
-
-fn roundtrip(max_n: usize) {
-    let n: usize = kani::any();
-    kani::assume(n <= max_n);
-    let ps = [any_param(), any_param(), any_param()];
+/// Writes `n` (<= 3) parameters with the real serializer and checks the COMPLETE produced layout
+/// (RTPS 9.4.2.11): header, per parameter id / length / value / zero padding, sentinel.
+fn encode(ps: &[Param; 3], n: usize) -> Vec<u8> {
+    // capacity reserved up front: no reallocation while writing (the real callers start from Vec::new();
+    // the capacity of the vector is not observable by the serializer)
     let mut buf: Vec<u8> = Vec::with_capacity(64);
     {
         let mut ser = ParameterListSerializer::new(&mut buf);
@@ -108,11 +106,12 @@ fn roundtrip(max_n: usize) {
         }
         ser.write_sentinel();
     }
-    // ---- layout of the produced bytes (RTPS 9.4.2.11) ----
     let mut expect_len = 4;
+    let mut off = [0usize; 3];
     let mut i = 0;
     while i < 3 {
         if i < n {
+            off[i] = expect_len;
             expect_len += 4 + pad4(ps[i].len);
         }
         i += 1;
@@ -122,19 +121,35 @@ fn roundtrip(max_n: usize) {
     assert!(buf[0] == 0 && buf[1] == 3 && buf[2] == 0 && buf[3] == 0, "C13: encapsulation header is PL_CDR_LE");
     let e = buf.len();
     assert!(buf[e - 4] == 1 && buf[e - 3] == 0 && buf[e - 2] == 0 && buf[e - 1] == 0, "C13: list ends with PID_SENTINEL, length 0");
-    if n >= 1 {
-        assert!(i16::from_le_bytes([buf[4], buf[5]]) == ps[0].pid, "C13: first parameter id written little-endian");
-        assert!(u16::from_le_bytes([buf[6], buf[7]]) as usize == pad4(ps[0].len), "C13: length field = value length rounded up to 4");
+    let mut i = 0;
+    while i < 3 {
+        if i < n {
+            let o = off[i];
+            assert!(i16::from_le_bytes([buf[o], buf[o + 1]]) == ps[i].pid, "C13: parameter id written little-endian");
+            assert!(u16::from_le_bytes([buf[o + 2], buf[o + 3]]) as usize == pad4(ps[i].len), "C13: length field = value length rounded up to 4");
+            let pl = pad4(ps[i].len);
+            let v = |j: usize| if j < pl { buf[o + 4 + j] } else { 0 };
+            assert!(
+                byte_ok(v(0), &ps[i], 0) && byte_ok(v(1), &ps[i], 1) && byte_ok(v(2), &ps[i], 2) && byte_ok(v(3), &ps[i], 3)
+                    && byte_ok(v(4), &ps[i], 4) && byte_ok(v(5), &ps[i], 5) && byte_ok(v(6), &ps[i], 6) && byte_ok(v(7), &ps[i], 7),
+                "C13: value bytes written in order, padding bytes zero"
+            );
+        }
+        i += 1;
     }
+    buf
+}
 
-    // ---- decoder ----
+/// Looks up a symbolic id in `buf` with the real decoder and compares with the first parameter of
+/// that id.  Returns (index of the first parameter with the looked-up id, q).
+fn lookup(buf: &Vec<u8>, ps: &[Param; 3], n: usize, also_non_optional: bool) -> (Option<usize>, i16) {
     let q: i16 = kani::any();
     kani::assume(q != PID_SENTINEL && q != HEADER_ALIAS_LE);
     let pl = match ParameterList::new(buf.as_slice()) {
         Ok(pl) => pl,
         Err(_) => {
             kani::assert(false, "C13: a written list is accepted by ParameterList::new");
-            return;
+            return (None, q);
         }
     };
     let first = if n >= 1 && ps[0].pid == q {
@@ -147,42 +162,117 @@ fn roundtrip(max_n: usize) {
         None
     };
     let got = pl.get_optional_parameter::<Raw>(q, absent());
-    let got2 = pl.get_non_optional_parameter::<Raw>(q);
     match (&got, first) {
         (Ok(raw), Some(k)) => {
             let l = ps[k].len;
-            assert!(raw.len == pad4(l) && !raw.more, "C13: lookup returns exactly the padded value of the first parameter with that id");
-            let mut j = 0;
-            while j < MAXV {
-                if j < l {
-                    assert!(raw.bytes[j] == ps[k].val[j], "C13: lookup returns the bytes that were written");
-                } else if j < pad4(l) {
-                    assert!(raw.bytes[j] == 0, "C13: padding bytes are zero");
-                }
-                j += 1;
-            }
-            assert!(got2.is_ok(), "C13: get_non_optional_parameter finds a present parameter");
+            assert!(raw.len == pad4(l), "C13: lookup returns exactly the padded value of the first parameter with that id");
+            let b = &raw.bytes;
+            assert!(
+                byte_ok(b[0], &ps[k], 0) && byte_ok(b[1], &ps[k], 1) && byte_ok(b[2], &ps[k], 2) && byte_ok(b[3], &ps[k], 3)
+                    && byte_ok(b[4], &ps[k], 4) && byte_ok(b[5], &ps[k], 5) && byte_ok(b[6], &ps[k], 6) && byte_ok(b[7], &ps[k], 7),
+                "C13: lookup returns the bytes that were written, padding bytes zero"
+            );
         }
         (Ok(raw), None) => {
             assert!(raw.len == ABSENT, "C13: lookup of an id that was not written returns the caller's default");
-            assert!(matches!(got2, Err(CdrError::PidNotFound(x)) if x == q), "C13: get_non_optional_parameter reports PidNotFound for an id that was not written");
         }
         (Err(_), _) => kani::assert(false, "C13: lookup in a written list does not fail"),
     }
-    if max_n >= 3 {
-        kani::cover!(first == Some(2) && n == 3 && ps[0].len == 5 && ps[1].len == 0, "third parameter found behind a padded and an empty one");
-        kani::cover!(first == Some(0) && n == 3 && ps[1].pid == q && ps[2].pid == q, "three parameters with the same id: the first wins");
-        kani::cover!(first == Some(1) && ps[0].pid < 0 && ps[2].pid < 0 && n == 3, "found between two vendor-specific (negative i16) ids");
-        kani::cover!(first.is_none() && n == 3, "id absent from a list of three");
+    if also_non_optional {
+        let got2 = pl.get_non_optional_parameter::<Raw>(q);
+        match first {
+            Some(_) => assert!(got2.is_ok(), "C13: get_non_optional_parameter finds a present parameter"),
+            None => assert!(matches!(got2, Err(CdrError::PidNotFound(x)) if x == q), "C13: get_non_optional_parameter reports PidNotFound for an id that was not written"),
+        }
     }
-    kani::cover!(first == Some(1) && n == 2 && ps[0].len == 5 && ps[0].pid < 0, "second parameter found behind a padded vendor-specific one");
-    kani::cover!(first == Some(0) && n == 2 && ps[1].pid == q, "two parameters with the same id: the first wins");
-    kani::cover!(first.is_none() && n == 2, "id absent from a list of two");
-    kani::cover!(first.is_none() && n == 0, "empty list (header + sentinel)");
-    kani::cover!(first == Some(0) && ps[0].len == 8, "longest value");
-    kani::cover!(first == Some(0) && ps[0].len == 3 && ps[0].val[2] != 0, "one padding byte");
-    kani::cover!(first == Some(1) && ps[0].pid == 0, "PID_PAD (0) before the parameter is skipped like any other id");
+    (first, q)
+}
+
+// @check props=C13 tier=quick
+// @desc encoder layout: one parameter of every length 0..=8 and a list of three parameters (lengths 6, 4, 1) written by the real ParameterListSerializer are exactly {header 00 03 00 00, per parameter: id LE, length LE = value length rounded up to 4, value bytes in order, zero padding to a multiple of 4; sentinel 01 00 00 00}
+// @bounds value length each of 0..=8 (nine single-parameter cases) and the triple (6,4,1), lengths concrete per case; ids any i16 except 1; value bytes symbolic. unwind 11 (nine single-parameter cases + 2)
+// @assume value lengths <= 8 (the negation of trigger KF-C13-1 is covered only up to this bound)
+// @enc dcps::data_representation_builtin_endpoints::rtps_data_representation_serialization::ParameterListSerializer::write_header
+// @enc dcps::data_representation_builtin_endpoints::rtps_data_representation_serialization::ParameterListSerializer::write_cdr_parameter
+// @enc dcps::data_representation_builtin_endpoints::rtps_data_representation_serialization::ParameterListSerializer::write_sentinel
+#[kani::proof]
+#[kani::unwind(11)]
+fn c13_encoder_layout__rest() {
+    let mut l = 0;
+    while l <= MAXV {
+        let ps = [param_of_len(l), param_of_len(0), param_of_len(0)];
+        let buf = encode(&ps, 1);
+        if l == 3 {
+            kani::cover!(buf.len() == 16 && ps[0].val[2] != 0 && ps[0].pid < 0, "length 3: one padding byte, vendor-specific id");
+        }
+        core::mem::forget(buf);
+        l += 1;
+    }
+    let ps = [param_of_len(6), param_of_len(4), param_of_len(1)];
+    let buf = encode(&ps, 3);
+    kani::cover!(buf.len() == 4 + 12 + 8 + 8 + 4, "three parameters: 36 bytes");
     core::mem::forget(buf);
+}
+
+// @check props=C13 tier=quick
+// @desc encoder -> decoder, one parameter (length 3: one padding byte): looking up ANY id q with the real ParameterList returns exactly the written bytes plus zero padding if q is the written id, the caller's default otherwise; get_non_optional_parameter finds it / reports PidNotFound(q)
+// @bounds one parameter of 3 bytes; id any i16 except 1 (the sentinel); bytes symbolic; looked-up id any i16 except 1 and 0x0300 (the encapsulation header read as a parameter id - no PID has that value; the big-endian counterpart is KF-C13-2). unwind 5 (the decoder loop sees header pseudo-parameter, parameter, sentinel; harness code is loop-free)
+// @assume q != 0x0300
+// @enc dcps::data_representation_builtin_endpoints::rtps_data_representation_serialization::ParameterListSerializer::write_cdr_parameter
+// @enc dcps::data_representation_builtin_endpoints::rtps_data_representation::ParameterList::get_optional_parameter
+// @enc dcps::data_representation_builtin_endpoints::rtps_data_representation::ParameterList::get_non_optional_parameter
+// @enc dcps::data_representation_builtin_endpoints::rtps_data_representation::PidIterator::next
+#[kani::proof]
+#[kani::unwind(5)]
+fn c13_roundtrip_one_parameter__rest() {
+    let ps = [param_of_len(3), param_of_len(0), param_of_len(0)];
+    let buf = encode(&ps, 1);
+    let (first, _q) = lookup(&buf, &ps, 1, true);
+    kani::cover!(first == Some(0) && ps[0].val[2] != 0 && ps[0].pid < 0, "vendor-specific id found, one padding byte");
+    kani::cover!(first.is_none(), "id absent");
+    core::mem::forget(buf);
+}
+
+// @check props=C13 tier=quick
+// @desc encoder -> decoder, three parameters with ANY ids (standard, unknown, PID_PAD, vendor-specific >= 0x8000; ids may repeat): a lookup returns the FIRST parameter with the looked-up id - parameters with other ids before and after it are skipped over by their length field - or the default if absent
+// @bounds three parameters of lengths (0, 3, 8) (concrete), ids and value bytes symbolic; looked-up id any i16 except 1 and 0x0300. unwind 7 (header pseudo-parameter + 3 parameters + sentinel + 2)
+// @assume q != 0x0300
+// @enc dcps::data_representation_builtin_endpoints::rtps_data_representation_serialization::ParameterListSerializer::write_cdr_parameter
+// @enc dcps::data_representation_builtin_endpoints::rtps_data_representation::ParameterList::get_optional_parameter
+// @enc dcps::data_representation_builtin_endpoints::rtps_data_representation::PidIterator::next
+#[kani::proof]
+#[kani::unwind(7)]
+fn c13_roundtrip_three_parameters__rest() {
+    let ps = [param_of_len(0), param_of_len(3), param_of_len(8)];
+    let buf = encode(&ps, 3);
+    let (first, q) = lookup(&buf, &ps, 3, false);
+    kani::cover!(first == Some(2) && ps[0].pid < 0, "third parameter found behind an empty vendor-specific and a padded one");
+    kani::cover!(first == Some(0) && ps[1].pid == q && ps[2].pid == q, "three parameters with the same id: the first wins");
+    kani::cover!(first == Some(1) && ps[0].pid == 0, "PID_PAD (0) is skipped like any other id");
+    kani::cover!(first.is_none(), "id absent from a list of three");
+    core::mem::forget(buf);
+}
+
+// @check props=C13 tier=thorough timeout=1800
+// @desc as c13_roundtrip_three_parameters__rest for the length triple (6, 4, 1) and, in the same harness, the empty list (header + sentinel only)
+// @bounds three parameters of lengths (6, 4, 1); the empty list; ids and bytes symbolic. unwind 7
+// @assume q != 0x0300
+// @enc dcps::data_representation_builtin_endpoints::rtps_data_representation::ParameterList::get_optional_parameter
+// @enc dcps::data_representation_builtin_endpoints::rtps_data_representation::PidIterator::next
+#[kani::proof]
+#[kani::unwind(7)]
+fn c13_roundtrip_three_parameters_b__rest() {
+    let ps = [param_of_len(6), param_of_len(4), param_of_len(1)];
+    let buf = encode(&ps, 3);
+    let (first, _q) = lookup(&buf, &ps, 3, false);
+    kani::cover!(first == Some(1) && ps[0].pid < 0 && ps[2].pid < 0, "found between two vendor-specific (negative i16) ids");
+    kani::cover!(first == Some(2), "last parameter (1 byte, 3 padding bytes) found");
+    core::mem::forget(buf);
+    let ps0 = [param_of_len(0), param_of_len(0), param_of_len(0)];
+    let buf0 = encode(&ps0, 0);
+    let (first0, _q0) = lookup(&buf0, &ps0, 0, true);
+    kani::cover!(first0.is_none(), "empty list (header + sentinel)");
+    core::mem::forget(buf0);
 }
 
 // @check props=C13 tier=quick known=KF-C13-1
@@ -220,7 +310,7 @@ fn c13_length_field_truncation__known() {
         Err(_) => return,
     };
     let got = pl.get_optional_parameter::<Raw>(pid, absent());
-    assert!(matches!(&got, Ok(r) if r.len == CAP && r.more && r.bytes[0] == head[0] && r.bytes[3] == head[3]), "C13: a parameter of 65536 bytes is found with its bytes intact");
+    assert!(matches!(&got, Ok(r) if r.len == CAP && r.bytes[0] == head[0] && r.bytes[3] == head[3]), "C13: a parameter of 65536 bytes is found with its bytes intact");
     let got2 = pl.get_optional_parameter::<Raw>(pid2, absent());
     assert!(matches!(&got2, Ok(r) if r.len == 4 && r.bytes[0] == tail[0] && r.bytes[3] == tail[3]), "C13: the parameter after a 65536-byte parameter is still found");
     core::mem::forget((buf, value));
@@ -228,12 +318,12 @@ fn c13_length_field_truncation__known() {
 
 // @check props=C13 tier=quick known=KF-C13-2
 // @desc KF-C13-2: a big-endian parameter list (PL_CDR_BE, header 00 02 00 00 - what other vendors' big-endian participants send) holding PID_PARTICIPANT_LEASE_DURATION (0x0002) with a symbolic duration must decode to that duration - expected to FAIL: PidIterator starts at offset 0 and parses the 4-byte encapsulation header itself as a parameter (id 0x0002, length 0), so the lookup of id 2 returns the empty pseudo-parameter and the Duration decoder fails with NotEnoughData (SpdpDiscoveredParticipantData::from_bytes therefore rejects every big-endian participant announcement)
-// @bounds bytes built by hand per RTPS 9.4.2.11: header 00 02 00 00, (id 0x0002 BE, length 8 BE, sec BE, nanosec BE), sentinel; sec and nanosec symbolic. unwind 14
+// @bounds bytes built by hand per RTPS 9.4.2.11: header 00 02 00 00, (id 0x0002 BE, length 8 BE, sec BE, nanosec BE), sentinel; sec and nanosec symbolic. unwind 5
 // @assume trigger KF-C13-2: the looked-up id equals the encapsulation identifier read as a 16-bit id (0x0002 for PL_CDR_BE; 0x0300 for PL_CDR_LE, which no PID uses)
 // @enc dcps::data_representation_builtin_endpoints::rtps_data_representation::ParameterList::get_optional_parameter
 // @enc dcps::data_representation_builtin_endpoints::rtps_data_representation::PidIterator::next
 #[kani::proof]
-#[kani::unwind(14)]
+#[kani::unwind(5)]
 fn c13_big_endian_header_alias__known() {
     let sec: i32 = kani::any();
     let nanosec: u32 = kani::any();
@@ -257,12 +347,12 @@ fn c13_big_endian_header_alias__known() {
 
 // @check props=C13 tier=quick
 // @desc sibling of KF-C13-2 (negation of the trigger): in a big-endian list every id other than the header alias 0x0002 is looked up correctly - the parameter written after the header is found with its big-endian value, an id that is absent yields the default
-// @bounds bytes built by hand: header 00 02 00 00, one parameter (id symbolic BE != 1, != 2; length 8; two symbolic 32-bit words BE), sentinel; looked-up id symbolic != 1, != 2. unwind 14
+// @bounds bytes built by hand: header 00 02 00 00, one parameter (id symbolic BE != 1, != 2; length 8; two symbolic 32-bit words BE), sentinel; looked-up id symbolic != 1, != 2. unwind 5
 // @assume NOT trigger KF-C13-2: written and looked-up ids differ from 0x0002
 // @enc dcps::data_representation_builtin_endpoints::rtps_data_representation::ParameterList::get_optional_parameter
 // @enc dcps::data_representation_builtin_endpoints::rtps_data_representation::PidIterator::next
 #[kani::proof]
-#[kani::unwind(14)]
+#[kani::unwind(5)]
 fn c13_big_endian_lookup__rest() {
     let pid: i16 = kani::any();
     let q: i16 = kani::any();
